@@ -141,9 +141,58 @@ def write_tokens(path: str, toks: List[list]) -> None:
         f.write("\n".join(lines) + "\n")
 
 
+# presentation of a sparse tensor: the same entries at the far end of a very long first mode (subscripts beyond 2^53:
+# hashed 64-bit ids).  The specification sees the small subscripts; the harness translates mode 0 on the way in
+# (object, file) and back on the way out (tokens, object).
+FAR = 2 ** 53
+
+
+def is_far(c: dict) -> bool:
+    import hashlib
+    o = c["obj"]
+    if c.get("far") is not None:
+        return bool(c["far"])
+    if o is None or o.get("kind") != "sparse" or not o["shape"]:
+        return False
+    return hashlib.md5(json.dumps(o, sort_keys=True).encode()).digest()[3] % 3 == 0
+
+
+def far_obj(o: dict, sign: int) -> dict:
+    if o.get("kind") != "sparse" or not o.get("shape"):
+        return o
+    return dict(o, shape=[o["shape"][0] + sign * FAR] + list(o["shape"][1:]),
+                subs=[[r[0] + sign * FAR] + list(r[1:]) for r in o["subs"]])
+
+
+def far_tokens(toks: List[list], sign: int) -> List[list]:
+    if not toks or toks[0][0] != "sptensor":
+        return toks
+    out = [list(t) for t in toks]
+    n = out[1][1]
+    if n < 1:
+        return out
+    out[2][1] += sign * FAR
+    nz = out[2 + n][1]
+    for k in range(nz):
+        out[3 + n + k * (n + 1)][1] += sign * FAR
+    return out
+
+
 def run_case(c: dict, tmp: str) -> List[dict]:
     import bind
     ttb = bind.ttb
+    if is_far(c):
+        evs = run_case(dict(c, obj=far_obj(c["obj"], +1), tokens=far_tokens(c["tokens"], +1), far=False), tmp)
+        for ev in evs:
+            for k in ("obj", "tokens"):
+                if k in ev["args"]:
+                    ev["args"][k] = c[k]
+            ev["args"]["far"] = True
+            if ev["ret"].get("tokens") is not None:
+                ev["ret"]["tokens"] = far_tokens(ev["ret"]["tokens"], -1)
+            if ev["ret"].get("obj") is not None:
+                ev["ret"]["obj"] = far_obj(ev["ret"]["obj"], -1)
+        return evs
     evs = []
     obj = gamma_obj(c["obj"])
     p = os.path.join(tmp, "x.tns")
@@ -175,15 +224,17 @@ def record(stim: dict) -> dict:
                 c = {"obj": None, "base": e["args"]["base"], "tokens": e["args"]["tokens"]}
                 import bind
                 p = os.path.join(tmp, "x.tns")
+                far = bool(e["args"].get("far"))
                 try:
-                    write_tokens(p, c["tokens"])
+                    write_tokens(p, far_tokens(c["tokens"], +1) if far else c["tokens"])
                     back = bind.ttb.import_data(p, index_base=c["base"])
-                    evs.append({"op": "import", "args": e["args"], "ret": {"st": "ok", "obj": alpha_obj(back)}})
+                    evs.append({"op": "import", "args": e["args"], "ret": {"st": "ok", "obj": far_obj(alpha_obj(back), -1) if far else alpha_obj(back)}})
                 except Exception as ex:
                     evs.append({"op": "import", "args": e["args"], "ret": {"st": "raised", "msg": str(ex)[:100]}})
             else:
                 c = {"obj": e["args"]["obj"], "base": 1, "tokens": []}
-                evs += [x for x in run_case({"obj": e["args"]["obj"], "base": 1, "tokens": [["tensor", 0, 0, 0, 0]]}, tmp)
+                evs += [x for x in run_case({"obj": e["args"]["obj"], "base": 1, "tokens": [["tensor", 0, 0, 0, 0]],
+                                             "far": bool(e["args"].get("far"))}, tmp)
                         if x["op"] == e["op"]]
         return {"init": {}, "ev": evs}
 
